@@ -2,10 +2,16 @@
 From Coq Require Import String.
 From Coq Require Import List NArith Bool.
 From PK.Base Require Import Bytes.
+From PK.Generated Require Import Consts.
 From PK.Model Require Import C16.
 From PK.Proofs Require C16.
 Import ListNotations.
 Local Open Scope N_scope.
+
+(* the separator of the model is the one in the source regenerated today (pkg/jsonsign/verify.go sigSeparator) *)
+Theorem C16_separator_is_the_code's : ofs sig_separator = sep.
+Proof. reflexivity. Qed.
+Print Assumptions C16_separator_is_the_code's.
 
 (* LastIndex really is the last occurrence: what it returns is an occurrence and no later position is one *)
 Theorem C16_last_index_is_last : forall s ba i, last_index s ba = Some i ->
